@@ -36,9 +36,12 @@ func caseGen() *rapid.Generator[Case] {
 		c := Case{Names: rapid.SliceOfN(nameGen(), 1, 6).Draw(t, "names")}
 		n := rapid.IntRange(2, 14).Draw(t, "n")
 		for i := 0; i < n; i++ {
-			k := rapid.SampledFrom([]string{"register", "register", "listing", "style", "style", "style"}).Draw(t, "op")
+			k := rapid.SampledFrom([]string{"register", "register", "register", "listing", "listing", "style", "style", "style", "style", "style", "registerpkg"}).Draw(t, "op")
 			op := Op{K: k}
 			switch k {
+			case "registerpkg":
+				op.Which = rapid.IntRange(0, 6).Draw(t, "which")
+				op.Deco = dg.Draw(t, "deco")
 			case "register":
 				op.Name = rapid.IntRange(0, 5).Draw(t, "name")
 				op.Deco = dg.Draw(t, "deco")
